@@ -283,7 +283,7 @@ def run(chk):
             continue
         argv = s.value.args[0]
         gs = guards(s, stop=L)
-        fs = pat.fact_nodes(s, stop=L)  # atomic guard facts: arm position, `not`, comparison orientation and conjunct order do not matter
+        fs = pat.fact_nodes(s, stop=L, path_sensitive=False)  # atomic guard facts of the explicit branches: arm position, `not`, orientation and conjunct order do not matter
         rest_def = defs.get(argv.id) if isinstance(argv, ast.Name) else argv
         T_ok = rest_def is not None and rat_equal(inline_node(rest_def, {k: v for k, v in defs.items() if k != u(argv)}), parse_expr(f"{total_start} + {sched} - time.perf_counter()"))
         pos_guard = [f for f in fs if pat.is_(f, "E_rest > 0", binds={"rest": u(argv)})]
@@ -294,7 +294,7 @@ def run(chk):
         detail = f"sleep({u(argv)}) with {u(argv)} = {u(rest_def) if rest_def is not None else '?'} under {[(u(t), p) for t, p in gs]}"
         if ok:
             # the throttle `if` is on every path to the request
-            top = [a for a in source.ancestors(s) if isinstance(a, ast.If) and source.parent(a) is L]
+            top = [a for a in source.ancestors(s) if isinstance(a, ast.If) and source.logical_parent(a) is L and not getattr(a, "_synthetic_arm", None)]
             ok = bool(top) and g.dominated_by_nodes(wn, [g.node_of(top[0])])
             # rest is computed after the time base: `now()` read inside the throttled branch
             break
@@ -306,7 +306,7 @@ def run(chk):
     chk.rule("O4.4", "on every normal path from the runner invocation to the next iteration or loop exit exactly one sampler.add call is passed", 3,
              "requests without a sample (lost) or with two samples (double counted)")
     chk.ob("O4.4", "single sampler.add site in the loop", len(adds) == 1, addc, f"{len(adds)} site(s)")
-    ok = source.parent(source.parent(addc)) is L and not guards(addc, stop=L) and source.enclosing(addc, (ast.For, ast.While, ast.AsyncFor)) is L
+    ok = source.logical_parent(source.enclosing_stmt(addc)) is L and not guards(addc, stop=L) and source.enclosing(addc, (ast.For, ast.While, ast.AsyncFor)) is L
     chk.ob("O4.4", "sampler.add unconditional at loop-body level", ok, addc, f"guards={[(u(t), p) for t, p in guards(addc, stop=L)]}")
     an = g.node_of(addc)
     wx = [n for n in g.by_ast.get(id(Wn), []) if n.kind == "with_exit"]
